@@ -117,6 +117,10 @@ def run(ctx):
         ctx.check(got == "ok", "R17.5", mi, f"candidates: {case}", msg=f"module_import: {case}: {got}: an existing pyscript module is not found (ModuleNotFoundError) or another file is imported in its place",
                   key=f"candidates {case}", node=program.func(mi), rel="global_ctx.py")
 
+    ctx.rule("R17.7", "which script a module lookup is made for: an import executed inside a function is resolved by the context that defined the function "
+             "(the evaluator is switched to the defining context object for the body)", floor=2)
+    from .c11 import defining_context_rule
+    defining_context_rule(ctx, program, "R17.7")
     ctx.rule("R17.2", "importlib.import_module, sys.modules, exec and compile are used only at the reviewed sites", floor=3)
     allowed_sites = {
         "importlib.import_module": {"eval.py::AstEval.ast_import", "eval.py::AstEval.ast_importfrom"},
